@@ -19,6 +19,7 @@ from pbsym import ctx, coop
 from pbsym.ctx import B
 
 PROPERTY = 'C12'
+TECHNIQUE = 'solver-driven exhaustive enumeration of thread schedules (preemptions, forced switches, timer firings, failing operation) over a cooperative AST rewrite of the real async cassette, CrossHair/z3 forking on the oracle variables'
 FUNCTIONS = ['playback/tape_cassettes/asynchronous/async_record_only_tape_cassette.py::AsyncRecordOnlyTapeCassette.start',
              'playback/tape_cassettes/asynchronous/async_record_only_tape_cassette.py::AsyncRecordOnlyTapeCassette.close',
              'playback/tape_cassettes/asynchronous/async_record_only_tape_cassette.py::AsyncRecordOnlyTapeCassette.create_new_recording',
